@@ -159,8 +159,30 @@ class Tree:
         if isinstance(e, ast.Name):
             defs = [st for st in astq.assignments_to(self.fi.node, e.id) if isinstance(st, ast.Assign)]
             if defs:
-                return [d.value for d in defs]
+                out = []
+                for d in defs:
+                    out += self.values_of(d.value) if isinstance(d.value, ast.IfExp) else [d.value]
+                return out
+        if isinstance(e, ast.IfExp):   # a if cond else b: either value may be stored
+            return self.values_of(e.body) + self.values_of(e.orelse)
         return [e]
+
+    def _kwargs_of(self, call: ast.Call) -> List[ast.keyword]:
+        """The keyword arguments of a constructor call, with `**d` written out when d is a dict built in this builder from
+        a literal and constant-key item assignments."""
+        out: List[ast.keyword] = []
+        for k in call.keywords:
+            if k.arg is None and isinstance(k.value, ast.Name):
+                lits = [st for st in astq.assignments_to(self.fi.node, k.value.id) if isinstance(st, ast.Assign)]
+                items = [st for st in walk_function(self.fi.node) if isinstance(st, ast.Assign) and len(st.targets) == 1 and isinstance(st.targets[0], ast.Subscript)
+                         and isinstance(st.targets[0].value, ast.Name) and st.targets[0].value.id == k.value.id]
+                if len(lits) == 1 and isinstance(lits[0].value, ast.Dict) and all(isinstance(x, ast.Constant) and isinstance(x.value, str) for x in lits[0].value.keys) \
+                        and all(isinstance(st.targets[0].slice, ast.Constant) and isinstance(st.targets[0].slice.value, str) for st in items):
+                    out += [ast.keyword(arg=kk.value, value=vv) for kk, vv in zip(lits[0].value.keys, lits[0].value.values)]
+                    out += [ast.keyword(arg=st.targets[0].slice.value, value=st.value) for st in items]
+                    continue
+            out.append(k)
+        return out
 
     def expand(self, e: ast.AST, prefix: str, expect_types: Optional[List[str]], where: ast.AST) -> None:
         for v in self.values_of(e):
@@ -176,7 +198,7 @@ class Tree:
                         self.res.ob("C20-wire", False, self.fi.qualname, f"{cls}(...) keywords only",
                                     f"{cls} is constructed with positional arguments", f"{self.fi.module.relpath}:{v.lineno}")
                     fields = self.sch.fields_of(cls)
-                    for k in v.keywords:
+                    for k in self._kwargs_of(v):
                         if k.arg is None:
                             self.leaves.setdefault(prefix + ("." if prefix else "") + "**", []).append(k.value)
                             continue
@@ -329,9 +351,9 @@ def check_aug_guard(prog: Program, res: Result) -> None:
     fi = prog.func(f"{TRAIN}:get_data_config")
     calls = [c for c, q in prog.calls_in(fi) if q == f"{TRAIN}:get_aug_config"]
     for c in calls:
-        guards = [a for a in ancestors(c) if isinstance(a, ast.If)]
-        ok = len(guards) == 1 and isinstance(guards[0].test, ast.Name) and guards[0].test.id == "use_augmentations_train" \
-            and astq.in_body_of(c, guards[0], "body")
+        guards = [a for a in ancestors(c) if isinstance(a, (ast.If, ast.IfExp))]
+        in_true_arm = lambda g: astq.in_body_of(c, g, "body") if isinstance(g, ast.If) else any(x is c for x in ast.walk(g.body))
+        ok = len(guards) == 1 and isinstance(guards[0].test, ast.Name) and guards[0].test.id == "use_augmentations_train" and in_true_arm(guards[0])
         res.ob("C20-wire", ok, fi.qualname, "augmentation config built iff use_augmentations_train",
                "the augmentation configuration is not built under `if use_augmentations_train:`", f"{fi.module.relpath}:{c.lineno}")
 
@@ -617,9 +639,14 @@ def check_valid(prog: Program, res: Result, sch: Schema) -> None:
     vp = prog.func("sleap_nn.config.data_config:validate_proportion")
     res.touch(vp)
     ok = False
-    for n in walk_function(vp.node):
-        if isinstance(n, ast.If) and any(isinstance(x, ast.Raise) for b in n.body for x in ast.walk(b)):
-            ok = _rejects_outside_unit(n.test, "value")
+    from ..core.inline import tailify, clone as _clone
+    vbody = tailify([_clone(b_) for b_ in vp.node.body]) or vp.node.body   # `if ok: return` + raise  ->  if ok: return / else: raise
+    for n in [x for b_ in vbody for x in ast.walk(b_)]:
+        if isinstance(n, ast.If):
+            if any(isinstance(x, ast.Raise) for b in n.body for x in ast.walk(b)) and not any(isinstance(x, ast.Raise) for b in n.orelse for x in ast.walk(b)):
+                ok = _rejects_outside_unit(n.test, "value")
+            elif any(isinstance(x, ast.Raise) for b in n.orelse for x in ast.walk(b)) and not any(isinstance(x, ast.Raise) for b in n.body for x in ast.walk(b)):
+                ok = _rejects_outside_unit(ast.UnaryOp(op=ast.Not(), operand=n.test), "value")
     res.ob("C20-valid", ok and _raises_valueerror(vp.node), vp.qualname, "rejects exactly values outside [0, 1] with ValueError",
            "validate_proportion no longer raises ValueError exactly for values outside [0.0, 1.0]", vp.where)
     # 2. named validators that must exist and raise
